@@ -23,7 +23,7 @@ func tokenPreamble(n int) []sim.Op {
 }
 
 var profileC01 = []kindW{{"mocksend", 5}, {"nftsend", 2}, {"mtsend", 2}, {"flow", 6}, {"recv", 9}, {"ack", 2}, {"update", 2},
-	{"commit", 1}, {"clean", 1}, {"recvclean", 1}, {"replay", 2}}
+	{"commit", 1}, {"clean", 1}, {"recvclean", 1}, {"replay", 2}, {"rules", 2}}
 
 func TestC01(t *testing.T) {
 	runProp(t, "C01",
@@ -42,7 +42,7 @@ func TestC01(t *testing.T) {
 }
 
 var profileC02 = []kindW{{"mocksend", 6}, {"nftsend", 2}, {"mtsend", 2}, {"flow", 6}, {"round", 6}, {"recv", 3}, {"ack", 2}, {"update", 1},
-	{"commit", 1}, {"clean", 5}, {"recvclean", 2}, {"cleanflow", 5}, {"stale", 5}, {"replay", 8}}
+	{"commit", 1}, {"clean", 5}, {"recvclean", 2}, {"cleanflow", 5}, {"stale", 5}, {"replay", 8}, {"burst", 2}}
 
 func TestC02(t *testing.T) {
 	runProp(t, "C02",
@@ -101,7 +101,7 @@ func TestC09(t *testing.T) {
 }
 
 var profileC10 = []kindW{{"mocksend", 8}, {"nftsend", 1}, {"flow", 6}, {"round", 8}, {"recv", 2}, {"ack", 2}, {"update", 1},
-	{"commit", 1}, {"clean", 8}, {"recvclean", 4}, {"cleanflow", 6}, {"stale", 5}, {"replay", 4}}
+	{"commit", 1}, {"clean", 8}, {"recvclean", 4}, {"cleanflow", 6}, {"stale", 5}, {"replay", 4}, {"burst", 2}}
 
 func TestC10(t *testing.T) {
 	runProp(t, "C10",
